@@ -149,6 +149,14 @@ def mexpr_to_sexp(bind_expr, ty: str, grammar) -> Any:
     prefixes = bind_expr.to_tree_prefix(ty, grammar)
     out = [Atom("mtrees")]
     for tree, paths in prefixes:
+        # A nonterminal of the match expression that ISLa's parse derives to the EMPTY string becomes a closed, childless
+        # nonterminal node of the tree prefix.  The specification's match function does not distinguish such a node from
+        # an open leaf (a childless node of the match-expression tree matches any node with its label), ISLa's match()
+        # demands an epsilon-expanded node there.  The reference follows the specification's formula; for these match
+        # expressions the two readings differ, so they are outside the reference (counted as unsupported).
+        for _, node in tree.paths():
+            if node.children is not None and len(node.children) == 0 and node.value in grammar:
+                raise Unsupported("match expression with an epsilon-expanded nonterminal")
         binds = [[v.name, list(p)] for v, p in paths.items() if type(v) is BoundVariable]
         out.append([T.to_sexp(T.from_isla(tree)), binds])
     return out
